@@ -90,8 +90,24 @@ func fromFilePart(r *ev.Report, scratch string) {
 		}
 	}
 	n := 0
-	for hi, args := range fileHooks() {
-		hook := append([]string{vdump}, args...)
+	// the program is named by its full path and by its bare name (found through PATH, as the
+	// default xdg-open is): either way the process is started under the name that was configured
+	type named struct {
+		prog string
+		args []string
+	}
+	var hooks []named
+	for _, args := range fileHooks() {
+		hooks = append(hooks, named{vdump, args})
+	}
+	for i, args := range fileHooks() {
+		if i%3 == 0 {
+			hooks = append(hooks, named{filepath.Base(vdump), args})
+		}
+	}
+	for hi, nh := range hooks {
+		args := nh.args
+		hook := append([]string{nh.prog}, args...)
 		home := filepath.Join(scratch, fmt.Sprintf("c20-cfg-%d-%d", os.Getpid(), hi))
 		os.MkdirAll(filepath.Join(home, "servitor"), 0o755)
 		quoted := make([]string, len(hook))
@@ -103,7 +119,7 @@ func fromFilePart(r *ev.Report, scratch string) {
 		dump := filepath.Join(home, "dump.jsonl")
 		ctx, cancel := context.WithTimeout(context.Background(), 120*time.Second)
 		cmd := exec.CommandContext(ctx, self)
-		cmd.Env = append(os.Environ(), "XDG_CONFIG_HOME="+home, "C20_CONFIG_CHILD=1", "VDUMP_OUT="+dump)
+		cmd.Env = append(os.Environ(), "XDG_CONFIG_HOME="+home, "C20_CONFIG_CHILD=1", "VDUMP_OUT="+dump, "PATH="+filepath.Dir(vdump)+string(os.PathListSeparator)+os.Getenv("PATH"))
 		out, err := cmd.CombinedOutput()
 		cancel()
 		c := hookCase{Hook: hook, Link: fileLink, MediaType: fileMT, Entry: "from-config-file"}
